@@ -618,6 +618,11 @@ def analyze(ctx, want):
             m = ("field", ("downcast", f[4], "Some"), "0")
             want_len = ("app", "saturating_sub", (("field", ("field", m, "span"), "end"), ("field", ("field", m, "span"), "start")))
             ok_len = ln == want_len or S.linear(ln) == S.linear(("sub", ("field", ("field", m, "span"), "end"), ("field", ("field", m, "span"), "start")))
+            if not ok_len and ln == ("int", 0):
+                # saturating subtraction written out: 0 on the path on which end <= start was established
+                from .common import ordering_of
+                se = ordering_of(p.conds, lambda x: x == ("field", ("field", m, "span"), "start"), lambda x: x == ("field", ("field", m, "span"), "end"))
+                ok_len = se <= {"E", "G"}
             ob("C05.b", "lookahead-length-is-length-of-its-match", ok_len, "length := %s" % S.vstr(ln), sl.loc())
         elif v == "None":
             rows["no match"] = "(%s, %s)" % (S.vstr(flag), S.vstr(ln))
@@ -697,6 +702,16 @@ def lookahead_wiring(ctx, rules=("C04.f",)):
                 ok_l = "Pattern::lookahead" in a0 and set(re.findall(r"item@bb\d+", a0)) == items
                 why = "compiled from %s" % a0[:80]
             ob("mode:lookahead-attached-to-its-own-pattern", ok_t and ok_l, "add_lookahead(%s, ..): %s" % (ts[:60], why), cp.loc())
+    # a pattern is passed over only because it has no lookahead (whatever drops it: `if let`, filter_map, continue)
+    for p in paths:
+        if p.end is None or p.end[0] != "cut" or p.calls(r"CompiledDfa::add_lookahead$") or p.calls(r"CompiledLookahead::try_from_lookahead$"):
+            continue
+        ic = [(c, o) for c, o in p.conds if "item@" in S.fstr(c) and not (c[0] == "isvar" and "Iterator>::next" in S.fstr(c))]
+        if not ic:
+            continue
+        from .common import cond_variant
+        only_none = all(cond_variant(c, o) is not None and cond_variant(c, o)[1] == "None" and re.search(r"Pattern::lookahead\(&?\*?item@bb\d+\)$", S.fstr(cond_variant(c, o)[0])) is not None for c, o in ic)
+        ob("mode:pattern-skipped-only-without-lookahead", only_none, "a pattern is passed over under %s" % [(S.fstr(c)[:60], o) for c, o in ic], cp.loc())
     for r in rules:
         ctx.floor(r, "add_lookahead calls on paths of CompiledDfa::try_from_patterns", n, 1)
     al = F.fn(r"CompiledDfa::add_lookahead$")
